@@ -94,6 +94,15 @@ pub fn check_pwb(b: &[u8], loc: &mut Local, strict: bool) {
         }
     };
     loc.note(h, nontrivial, if real.is_ok() { "accept" } else { "reject" });
+    // the wrapper enum is an entry point of its own: it must return, and agree on accept / reject, for every input
+    match guard(|| PwbPacket::try_from(b).is_ok()) {
+        Err(p) => loc.violation(format!("panic:pwb-wrapper:{}", panic_site(&p)), json!({"input": hex(b), "len": b.len(), "panic": p})),
+        Ok(w) => {
+            if strict && w != real.is_ok() {
+                loc.violation("pwb:wrapper-disagrees", json!({"input": hex(b), "len": b.len(), "wrapper_accepts": w}));
+            }
+        }
+    }
     let rf = if strict { ref_pwb_decode(b) } else { None };
     match &real {
         Ok(p) => {
